@@ -13,12 +13,12 @@ def sh(engine, workload, seed, shard, timeout=300, miriflags=None, **kw):
     return d
 
 
-def arena_shards(seed, tier, profiles, iters_q, iters_t, ops=200, miri_q=1, miri_t=16, asan_t=8, workload="arena", extra=None):
+def arena_shards(seed, tier, profiles, iters_q, iters_t, ops=200, miri_q=1, miri_t=32, asan_t=16, workload="arena", extra=None):
     """native debug+release for every MIN_ALIGN, plus Miri (and ASan in thorough)"""
     extra = extra or {}
     out = []
     n = 0
-    reps = 1 if tier == "quick" else 6
+    reps = 1 if tier == "quick" else 16
     iters = iters_q if tier == "quick" else iters_t
     for rep in range(reps):
         for prof in profiles:
@@ -121,12 +121,12 @@ def plan_C09(tier, seed):
     q = tier == "quick"
     shards = []
     n = 0
-    for rep in range(1 if q else 8):
+    for rep in range(1 if q else 16):
         for ma in MAS:
             for eng in ("debug", "release"):
                 shards.append(sh(eng, "c09", seed, n, timeout=900, ma=ma, iters=(12 if q else 40), ops=(70 if q else 110), max_k=(40 if q else 200)))
                 n += 1
-    for i in range(1 if q else 8):
+    for i in range(1 if q else 16):
         shards.append(sh("miri", "c09", seed, 1000 + i, timeout=1500, ma=MAS[(seed + i) % 5], iters=1, ops=(9 if q else 25), max_k=(2 if q else 8)))
     return dict(level="fault_enumeration",
                 rule=("one evaluation = one (history, refusal schedule) pair, run twice (try_ methods / infallible twins); for every generated history the fault-free run counts its n chunk requests, "
@@ -146,8 +146,8 @@ def plan_C11(tier, seed):
             n += 1
     # random histories with the try_with-heavy profile as well
     shards += arena_shards(seed, tier, ["trywith"], 60, 600, miri_q=0, miri_t=4, asan_t=2)
-    for i in range(1 if q else 12):
-        shards.append(sh("miri", "c11", seed, i, timeout=1500, ma=MAS[(seed + i) % 5], stride=(2500 if q else 300)))
+    for i in range(1 if q else 32):
+        shards.append(sh("miri", "c11", seed, i, timeout=1800, ma=MAS[(seed + i) % 5], stride=(2500 if q else 200)))
     return dict(level="exploration",
                 rule=("one evaluation = one steered case (arena parked so that exactly L bytes are left, then one failing fallible initialiser + reuse probe + follow-up ops) or one random history of the trywith profile; "
                       "distinct = distinct (type, entry point, initialiser behaviour, bytes left, allocator refusing or not, outcome, MIN_ALIGN) tuples"),
@@ -159,12 +159,12 @@ def plan_C12(tier, seed):
     q = tier == "quick"
     shards = arena_shards(seed, tier, ["allocator"], 80, 800, miri_q=1, miri_t=10, asan_t=5)
     n = 500
-    for rep in range(1 if q else 6):
+    for rep in range(1 if q else 16):
         for ma in MAS:
             for eng in ("debug", "release"):
                 shards.append(sh(eng, "c12diff", seed, n, ma=ma, iters=(40 if q else 300), ops=300))
                 n += 1
-    for i in range(1 if q else 6):
+    for i in range(1 if q else 16):
         shards.append(sh("miri", "c12diff", seed, 3000 + i, timeout=1500, ma=MAS[(seed + i) % 5], iters=1, ops=(40 if q else 90)))
     if not q:
         for i in range(5):
@@ -180,9 +180,10 @@ def plan_C18(tier, seed):
     q = tier == "quick"
     shards = []
     n = 0
-    for ma in MAS:
+    for rep in range(1 if q else 6):
+      for ma in MAS:
         for eng in ("debug", "release"):
-            shards.append(sh(eng, "c18", seed, n, timeout=900, ma=ma, iters=(10 if q else 120), ops=150, quick=(1 if q else 0), vec_cases=(120 if q else 1500)))
+            shards.append(sh(eng, "c18", seed + 1000 * rep, n, timeout=1800, ma=ma, iters=(10 if q else 500), ops=150, quick=(1 if q else 0), vec_cases=(120 if q else 4000)))
             n += 1
     for i in range(1 if q else 5):
         shards.append(sh("miri", "c18", seed, 100 + i, timeout=1500, ma=MAS[(seed + i) % 5] if i else 1, iters=0, ops=0, stride=3))
@@ -204,7 +205,7 @@ def plan_C19(tier, seed):
     # random histories that mix huge requests with ordinary ones (faults profile has them at weight 6)
     for ma in MAS:
         for eng in ("debug", "release"):
-            shards.append(sh(eng, "arena", seed, 100 + n, ma=ma, iters=(40 if q else 400), ops=150, profile="faults"))
+            shards.append(sh(eng, "arena", seed, 100 + n, ma=ma, iters=(40 if q else 4000), ops=150, profile="faults"))
             n += 1
     return dict(level="exploration", exhaustive=True,
                 rule=("one evaluation = one (entry point, element size, boundary count, arena/vector state, flavour) cell of a finite grid enumerated completely in debug and release for every MIN_ALIGN, "
@@ -217,21 +218,21 @@ def plan_C20(tier, seed):
     q = tier == "quick"
     shards = []
     n = 0
-    for rep in range(1 if q else 6):
+    for rep in range(1 if q else 16):
         for ma in MAS:
             for eng in ("debug", "release"):
                 shards.append(sh(eng, "c20", seed, n, timeout=900, ma=ma, iters=(12 if q else 60), ops=(120 if q else 200), threads=(3 + n % 4)))
                 n += 1
     # ThreadSanitizer: detector-oriented rounds + the trace workload
-    for i in range(3 if q else 24):
+    for i in range(3 if q else 64):
         shards.append(sh("tsan", "c20race", seed, 200 + i, timeout=900, iters=(300 if q else 1500), threads=2 + i % 7))
-    for i in range(2 if q else 10):
+    for i in range(2 if q else 30):
         shards.append(sh("tsan", "c20", seed, 300 + i, timeout=900, ma=MAS[i % 5], iters=(3 if q else 12), ops=100, threads=2 + i % 5, instrumented=1))
     # Miri: data-race detector with many schedules
-    for i in range(1 if q else 8):
-        shards.append(sh("miri", "c20race", seed + i, 400 + i, timeout=1500, iters=3, threads=3,
+    for i in range(1 if q else 24):
+        shards.append(sh("miri", "c20race", seed + i, 400 + i, timeout=1800, iters=(3 if q else 5), threads=3,
                          miriflags="-Zmiri-many-seeds=%d..%d -Zmiri-preemption-rate=0.05" % (i * 8, i * 8 + (6 if q else 8))))
-    for i in range(1 if q else 6):
+    for i in range(1 if q else 16):
         shards.append(sh("miri", "c20", seed, 500 + i, timeout=1800, ma=MAS[(seed + i) % 5], iters=1, ops=(14 if q else 30), threads=2, single=(0 if q else 1),
                          miriflags="-Zmiri-preemption-rate=0.05"))
     return dict(level="exploration", required_engines=["debug", "release", "tsan"],
@@ -242,12 +243,12 @@ def plan_C20(tier, seed):
                                              "race detectors only see the schedules that occurred; TSan runs are repeated with 2-8 threads, Miri with several scheduler seeds"])
 
 
-def coll_shards(seed, tier, workload, iters_q, iters_t, ops, extra=None, miri_q=1, miri_t=10, asan_t=4, miri_ops=40, miriflags="-Zmiri-ignore-leaks"):
+def coll_shards(seed, tier, workload, iters_q, iters_t, ops, extra=None, miri_q=1, miri_t=24, asan_t=8, miri_ops=40, miriflags="-Zmiri-ignore-leaks"):
     extra = extra or {}
     q = tier == "quick"
     out = []
     n = 0
-    for rep in range(2 if q else 16):
+    for rep in range(2 if q else 48):
         for eng in ("debug", "release"):
             out.append(sh(eng, workload, seed, n, timeout=900, iters=(iters_q if q else iters_t), ops=ops, **extra))
             n += 1
@@ -288,12 +289,12 @@ def plan_C16(tier, seed):
     q = tier == "quick"
     shards = []
     n = 0
-    for rep in range(1 if q else 8):
+    for rep in range(1 if q else 16):
         for eng in ("debug", "release"):
-            shards.append(sh(eng, "c16", seed + rep, n, timeout=900, iters=(3 if q else 25)))
+            shards.append(sh(eng, "c16", seed + rep, n, timeout=1800, iters=(3 if q else 60)))
             n += 1
-    for i in range(2 if q else 16):
-        shards.append(sh("miri", "c16", seed, i, timeout=1500, iters=1, stride=(40 if q else 16), miriflags="-Zmiri-ignore-leaks"))
+    for i in range(2 if q else 32):
+        shards.append(sh("miri", "c16", seed, i, timeout=1800, iters=1, stride=(40 if q else 32), miriflags="-Zmiri-ignore-leaks"))
     if not q:
         for i in range(3):
             shards.append(sh("asan", "c16", seed + i, 50 + i, timeout=900, iters=6, instrumented=1))
